@@ -546,6 +546,8 @@ impl OutstationSession {
                         Ok(NextIdleAction::SleepUntilEvent)
                     }
                     Some(UnsolicitedResult::Timeout) | Some(UnsolicitedResult::ReturnToIdle) => {
+                        // the events of the unconfirmed response must be offered again
+                        database.reset();
                         let retry_at = self.new_unsolicited_retry_deadline();
                         self.state.unsolicited = UnsolicitedState::Ready(Some(retry_at));
                         Ok(NextIdleAction::SleepUnit(retry_at))
